@@ -67,7 +67,7 @@ def cases(unit):
         a, b = unit['range']
         yield {'fam': 'dec', 'range': [a, b]}
     elif unit['fam'] == 'file':
-        for off in range(-14, 4):
+        for off in range(-22, 4):
             yield {'fam': 'file', 'offset': off}
     else:
         yield dict(unit)
@@ -271,10 +271,10 @@ def run_file(case, acc, report, out):
     d = tempfile.mkdtemp(prefix='c18-')
     try:
         path = os.path.join(d, 'f.csv')
-        special = Row3(5, 'x,"\\y', -0.25)
+        special = Row3(5, '\u00e9\u20ac\U0001F600,"\\y', -0.25)
         head = 'i,s,f\n'
         first_len = 64 * 1024 - len(head) + off
-        pad = Row3(0, 'p' * (first_len - len('0,"",1.0\n')), 1.0)
+        pad = Row3(0, 'p' * (first_len - len('0,"",1.0\n')), 1.0)      # the 64 KiB boundary falls -off bytes into the second row
         rows = [pad, special, Row3(6, 'z', 3.0)]
         s = RawSink()
         s.subscribe_to(rx.from_(rows).pipe(rscsv.dump_to_file(path, encoding='utf-8')))
